@@ -13,7 +13,7 @@ use std::{
     task::{Context, Poll, Wake, Waker},
 };
 
-use actix_codec::{AsyncRead, AsyncWrite, BytesCodec, Decoder, Encoder, Framed, LinesCodec, ReadBuf};
+use actix_codec::{AsyncRead, AsyncWrite, BytesCodec, Decoder, Encoder, Framed, FramedParts, LinesCodec, ReadBuf};
 use bytes::{Buf, BufMut, Bytes, BytesMut};
 use futures_core::Stream;
 use vh::*;
@@ -237,6 +237,38 @@ fn gen_c15(a: &Args, w: &mut dyn Write) {
             _ => writeln!(w, "dec {}", hex(&s)).unwrap(),
         }
     }
+    // (4) very long lines (1..20 KB: beyond memchr's word-at-a-time paths and the 8 KiB mark), with
+    // CR LF / LF / no terminator / a trailing CR, multi-byte characters, a damaged byte somewhere
+    let cases = if thorough { 400 } else { 40 };
+    writeln!(w, "case lines-long").unwrap();
+    for _ in 0..cases {
+        let mut s = vec![];
+        for _ in 0..rng.range(1, 3) {
+            let n = *rng.pick(&[1000usize, 4095, 4096, 8191, 8192, 8193, 20000]) + rng.below(3);
+            for _ in 0..n {
+                s.push(b'a' + rng.below(26) as u8);
+            }
+            match rng.below(6) {
+                0 => {
+                    let at = rng.below(s.len());
+                    s[at] = 0xFF;
+                }
+                1 => s.extend_from_slice("é€😀".as_bytes()),
+                2 => {
+                    let at = rng.below(s.len());
+                    s[at] = b'\r';
+                }
+                _ => {}
+            }
+            match rng.below(5) {
+                0 => s.extend_from_slice(b"\r\n"),
+                1 => s.push(b'\r'),
+                2 => {}
+                _ => s.push(b'\n'),
+            }
+        }
+        writeln!(w, "dec {}", hex(&s)).unwrap();
+    }
 }
 
 fn step_c15(ws: &[&str], rep: &mut Report) -> Option<String> {
@@ -300,6 +332,9 @@ struct ReadSnap {
     delivered: usize,
     frames: usize,
     sels: Vec<Sel>,
+    /// nothing has arrived through a read yet and the buffer was handed over by
+    /// `FramedParts::with_read_buf` (flags empty by construction: the first poll reads first)
+    handed_over_only: bool,
 }
 
 #[derive(Default)]
@@ -319,6 +354,10 @@ struct IoState {
     /// codecs in place since the last byte was delivered (the last one is the current codec)
     sels_since_arrival: Vec<Sel>,
     read_snaps: Vec<ReadSnap>,
+    /// bytes handed over in `read_buf` at construction (they count as delivered)
+    handed_over: usize,
+    /// a read has delivered at least one byte
+    arrived: bool,
     // write side: a buffering transport.  `poll_write` stages the bytes it accepts; they reach the
     // wire (`written`) only when `poll_flush` (or `poll_shutdown`) completes
     wscript: VecDeque<Wr>,
@@ -376,7 +415,12 @@ impl AsyncRead for ScriptedIo {
         if room == 0 {
             st.zero_room_reads += 1;
         }
-        let snap = ReadSnap { delivered: st.delivered.len(), frames: st.frames_so_far, sels: st.sels_since_arrival.clone() };
+        let snap = ReadSnap {
+            delivered: st.delivered.len(),
+            frames: st.frames_so_far,
+            sels: st.sels_since_arrival.clone(),
+            handed_over_only: st.handed_over > 0 && !st.arrived,
+        };
         st.read_snaps.push(snap);
         match st.rscript.pop_front() {
             None => {
@@ -400,8 +444,11 @@ impl AsyncRead for ScriptedIo {
                 }
                 if k == 0 {
                     st.eof_answered = true;
-                } else if let Some(cur) = st.sels_since_arrival.last().copied() {
-                    st.sels_since_arrival = vec![cur];
+                } else {
+                    st.arrived = true;
+                    if let Some(cur) = st.sels_since_arrival.last().copied() {
+                        st.sels_since_arrival = vec![cur];
+                    }
                 }
                 Poll::Ready(Ok(()))
             }
@@ -722,17 +769,39 @@ struct Session {
     accepted: Vec<u8>,
 }
 
+/// how the `Framed` of a case is made
+#[derive(Clone, PartialEq, Debug)]
+enum Init {
+    /// `Framed::new`: both buffers with capacity HW
+    New,
+    /// `Framed::from_parts(FramedParts::new(..))`: both buffers without capacity
+    Parts,
+    /// `Framed::from_parts(FramedParts::with_read_buf(.., buf))`: bytes handed over, flags empty
+    Rbuf(Vec<u8>),
+}
+
 impl Session {
-    fn new(sel: Sel) -> Self {
+    fn new(sel: Sel, init: Init) -> Self {
         let io = ScriptedIo(Default::default());
         io.0.borrow_mut().sels_since_arrival = vec![sel];
         let codec = AnyCodec::new(sel);
         let cnt = codec.cnt.clone();
+        let framed = match &init {
+            Init::New => Framed::new(io.clone(), codec),
+            Init::Parts => Framed::from_parts(FramedParts::new(io.clone(), codec)),
+            Init::Rbuf(b) => {
+                let mut st = io.0.borrow_mut();
+                st.delivered = b.clone();
+                st.handed_over = b.len();
+                drop(st);
+                Framed::from_parts(FramedParts::with_read_buf(io.clone(), codec, BytesMut::from(&b[..])))
+            }
+        };
         Session {
             sel,
-            io: io.clone(),
+            io,
             cnt,
-            framed: Some(Framed::new(io, codec)),
+            framed: Some(framed),
             wake: Arc::new(CountWake(AtomicUsize::new(0))),
             outs: vec![],
             out_sel: vec![],
@@ -1025,7 +1094,7 @@ fn oracle_c13(s: &mut Session, rep: &mut Report) {
             continue;
         }
         let buffered = &d[o..sn.delivered];
-        if !buffered.is_empty() && sn.sels.iter().all(|c| can_decode(*c, buffered)) {
+        if !buffered.is_empty() && !sn.handed_over_only && sn.sels.iter().all(|c| can_decode(*c, buffered)) {
             let cur = sn.sels.last().copied().unwrap_or(s.sel);
             rep.t3(
                 "C13",
@@ -1199,8 +1268,14 @@ fn script_with(chunks: &[Vec<u8>], ins: &[(usize, Rd)]) -> Vec<Rd> {
 }
 
 fn emit_c13(w: &mut dyn Write, id: &mut usize, sel: Sel, tag: &str, script: &[Rd], polls: usize) {
+    // every 5th case on a `Framed` made from `FramedParts::new` (buffers without capacity)
+    let extra = if *id % 5 == 1 { " init=parts" } else { "" };
+    emit_c13x(w, id, sel, tag, script, polls, extra)
+}
+
+fn emit_c13x(w: &mut dyn Write, id: &mut usize, sel: Sel, tag: &str, script: &[Rd], polls: usize, extra: &str) {
     *id += 1;
-    writeln!(w, "case c13-{}-{tag}-{} codec={}", sel.name(), *id, sel.name()).unwrap();
+    writeln!(w, "case c13-{}-{tag}-{} codec={}{extra}", sel.name(), *id, sel.name()).unwrap();
     let evs: Vec<String> = script.iter().map(show_rd).collect();
     writeln!(w, "script {}", evs.join(" ")).unwrap();
     writeln!(w, "drain {polls}").unwrap();
@@ -1297,15 +1372,16 @@ fn gen_c13(a: &Args, w: &mut dyn Write) {
                 return;
             }
             for chunks in compositions(s) {
+                // the longest strings (thorough tier only): one or two chunks, the swap after 1..3 polls
+                if s.len() == 4 && chunks.len() > 2 {
+                    continue;
+                }
                 let polls = chunks.len() + s.len() + 3;
                 let p = chunks.len() + 1;
                 for a_sel in SELS {
                     for b_sel in SELS {
-                        for before in 0..=(if s.len() >= 3 { 3 } else { 2 }) {
+                        for before in (if s.len() == 4 { 1 } else { 0 })..=(if s.len() >= 3 { 3 } else { 2 }) {
                             emit_swap(w, &mut id, a_sel, b_sel, "plain", &script_with(&chunks, &[]), before, polls);
-                            if s.len() == 4 && (a_sel != b_sel) && before == 0 {
-                                continue;
-                            }
                             for i in 0..p {
                                 k += 1;
                                 emit_swap(w, &mut id, a_sel, b_sel, "pend", &script_with(&chunks, &[(i, Rd::Pending)]), before, polls + 1);
@@ -1346,16 +1422,35 @@ fn gen_c13(a: &Args, w: &mut dyn Write) {
                     emit_c13(w, &mut id, sel, "err", &script_with(&chunks, &[(i, e.clone())]), polls + 1);
                     emit_c13(w, &mut id, sel, "perr", &script_with(&chunks, &[(i, Rd::Pending), (i, e.clone())]), polls + 2);
                     emit_c13(w, &mut id, sel, "errp", &script_with(&chunks, &[(i, e.clone()), (i, Rd::Pending)]), polls + 2);
-                    let z = if k % 2 == 0 { Rd::Eof } else { Rd::Data(vec![]) };
-                    emit_c13(w, &mut id, sel, "eof", &script_with(&chunks, &[(i, z.clone())]), polls + 1);
-                    emit_c13(w, &mut id, sel, "erreof", &script_with(&chunks, &[(i, e.clone()), (i, z)]), polls + 2);
                     if s.len() >= lb {
                         continue;
                     }
+                    let z = if k % 2 == 0 { Rd::Eof } else { Rd::Data(vec![]) };
+                    emit_c13(w, &mut id, sel, "eof", &script_with(&chunks, &[(i, z.clone())]), polls + 1);
+                    emit_c13(w, &mut id, sel, "erreof", &script_with(&chunks, &[(i, e.clone()), (i, z)]), polls + 2);
                     // two I/O errors (same place: back to back; or two places)
                     for j in i..p {
                         let e2 = Rd::Err(kinds[(k + 5 + j) % kinds.len()]);
                         emit_c13(w, &mut id, sel, "err2", &script_with(&chunks, &[(i, e.clone()), (j, e2)]), polls + 2);
+                    }
+                }
+            }
+        });
+    }
+    // (G) bytes handed over in `read_buf` (`FramedParts::with_read_buf`, flags empty): every split of
+    // every string into a handed-over prefix and a rest delivered by reads (every composition, a
+    // Pending at every place)
+    for (sel, alphabet) in C13_ALPHABETS {
+        let extra = if alphabet.len() == 2 { 2 } else { 0 };
+        let lg = if thorough { 5 + extra } else { 4 + extra };
+        all_strings(alphabet, lg, &mut |s| {
+            for j in 1..=s.len() {
+                let init = format!(" init=rbuf:{}", hex(&s[..j]));
+                for chunks in compositions(&s[j..]) {
+                    let polls = chunks.len() + s.len() + 3;
+                    emit_c13x(w, &mut id, sel, "rbuf", &script_with(&chunks, &[]), polls, &init);
+                    for i in 0..=chunks.len() {
+                        emit_c13x(w, &mut id, sel, "rbufp", &script_with(&chunks, &[(i, Rd::Pending)]), polls + 1, &init);
                     }
                 }
             }
@@ -1398,7 +1493,7 @@ fn gen_c13(a: &Args, w: &mut dyn Write) {
             _ => {}
         }
         id += 1;
-        writeln!(w, "case c13-{}-long-{id} codec={}", sel.name(), sel.name()).unwrap();
+        writeln!(w, "case c13-{}-long-{id} codec={}{}", sel.name(), sel.name(), if rng.chance(1, 4) { " init=parts" } else { "" }).unwrap();
         // the script in several `script` lines, polls in between (the script may run dry = EOF only at the end)
         let evs: Vec<String> = script.iter().map(show_rd).collect();
         for part in evs.chunks(12) {
@@ -1444,6 +1539,13 @@ fn gen_c13(a: &Args, w: &mut dyn Write) {
     writeln!(w, "poll").unwrap();
     writeln!(w, "next").unwrap();
     writeln!(w, "case c13-badcodec codec=nope").unwrap();
+    writeln!(w, "poll").unwrap();
+    writeln!(w, "case c13-badinit codec=len init=nope").unwrap();
+    writeln!(w, "poll").unwrap();
+    writeln!(w, "case c13-badinit2 codec=len init=rbuf:6").unwrap();
+    writeln!(w, "poll").unwrap();
+    writeln!(w, "case c13-init-new codec=len init=new").unwrap();
+    writeln!(w, "script d:0161").unwrap();
     writeln!(w, "poll").unwrap();
 }
 
@@ -1753,6 +1855,10 @@ struct WConfig {
     sscript: Vec<Fl>,
     /// 0: the `Sink` methods, 1: the inherent `write`/`flush`/`close`, 2: alternating
     api: u8,
+    /// the `Framed` is made from `FramedParts::new` (write buffer without capacity)
+    parts: bool,
+    /// read script for the `poll` ops interleaved with the writes (the same `Framed` is a `Stream`)
+    rscript: Vec<Rd>,
 }
 
 fn show_wr(e: &Wr) -> String {
@@ -1802,13 +1908,24 @@ fn random_wconfig(rng: &mut Rng) -> WConfig {
     };
     let fscript = fl(rng);
     let sscript = fl(rng);
-    WConfig { sel, sizes, wscript, fscript, sscript, api: rng.below(3) as u8 }
+    let rscript = if rng.chance(1, 3) {
+        (0..rng.range(1, 5))
+            .map(|_| match rng.below(6) {
+                0 => Rd::Pending,
+                1 => Rd::Err(*rng.pick(&kinds)),
+                _ => Rd::Data((0..rng.range(1, 6)).map(|_| *rng.pick(&[0u8, 1, 2, b'a', b'\n', b'\r', 0xFF])).collect()),
+            })
+            .collect()
+    } else {
+        vec![]
+    };
+    WConfig { sel, sizes, wscript, fscript, sscript, api: rng.below(3) as u8, parts: rng.chance(1, 4), rscript }
 }
 
-/// ops: 0 send, 1 ready, 2 flush, 3 close, 4 codec swap, 5 into_map_io
+/// ops: 0 send, 1 ready, 2 flush, 3 close, 4 codec swap, 5 into_map_io, 6 poll the stream half
 fn emit_c14(w: &mut dyn Write, id: &mut usize, tag: &str, cfg: &WConfig, ops: &[u8]) {
     *id += 1;
-    writeln!(w, "case c14-{tag}-{} codec={}", *id, cfg.sel.name()).unwrap();
+    writeln!(w, "case c14-{tag}-{} codec={}{}", *id, cfg.sel.name(), if cfg.parts { " init=parts" } else { "" }).unwrap();
     if !cfg.wscript.is_empty() {
         writeln!(w, "wscript {}", cfg.wscript.iter().map(show_wr).collect::<Vec<_>>().join(" ")).unwrap();
     }
@@ -1817,6 +1934,9 @@ fn emit_c14(w: &mut dyn Write, id: &mut usize, tag: &str, cfg: &WConfig, ops: &[
     }
     if !cfg.sscript.is_empty() {
         writeln!(w, "sscript {}", cfg.sscript.iter().map(show_fl).collect::<Vec<_>>().join(" ")).unwrap();
+    }
+    if !cfg.rscript.is_empty() {
+        writeln!(w, "script {}", cfg.rscript.iter().map(show_rd).collect::<Vec<_>>().join(" ")).unwrap();
     }
     let mut k = 0;
     let mut sel = cfg.sel;
@@ -1840,7 +1960,8 @@ fn emit_c14(w: &mut dyn Write, id: &mut usize, tag: &str, cfg: &WConfig, ops: &[
                 sel = SELS[(SELS.iter().position(|c| *c == sel).unwrap() + 1 + (*id + n_op) % 2) % 3];
                 writeln!(w, "swap {} {}", sel.name(), VIAS[(*id + n_op) % 3]).unwrap();
             }
-            _ => writeln!(w, "mapio").unwrap(),
+            5 => writeln!(w, "mapio").unwrap(),
+            _ => writeln!(w, "{}", if inherent { "next" } else { "poll" }).unwrap(),
         }
     }
 }
@@ -1853,9 +1974,9 @@ fn gen_c14(a: &Args, w: &mut dyn Write) {
     // hand-written configurations: the marks, partial writes, Pending, zero, errors, every codec; the
     // transport's own flush Pending once / several times / failing (bytes stay staged in the transport)
     let fixed = vec![
-        WConfig { sel: Sel::Lines, sizes: vec![1, 0, 3], wscript: vec![], fscript: vec![], sscript: vec![], api: 0 },
+        WConfig { sel: Sel::Lines, sizes: vec![1, 0, 3], wscript: vec![], fscript: vec![], sscript: vec![], api: 0, parts: false, rscript: vec![] },
         // the transport takes everything at once, but its flush completes only on the second / fourth call
-        WConfig { sel: Sel::Lines, sizes: vec![1, 3], wscript: vec![], fscript: vec![Fl::Pending, Fl::Ok, Fl::Pending, Fl::Pending], sscript: vec![Fl::Pending], api: 0 },
+        WConfig { sel: Sel::Lines, sizes: vec![1, 3], wscript: vec![], fscript: vec![Fl::Pending, Fl::Ok, Fl::Pending, Fl::Pending], sscript: vec![Fl::Pending], api: 0, parts: false, rscript: vec![] },
         WConfig {
             sel: Sel::Lines,
             sizes: vec![2],
@@ -1863,6 +1984,8 @@ fn gen_c14(a: &Args, w: &mut dyn Write) {
             fscript: vec![Fl::Pending, Fl::Ok, Fl::Err(K::TimedOut)],
             sscript: vec![Fl::Pending, Fl::Ok],
             api: 2,
+            parts: false,
+            rscript: vec![],
         },
         WConfig {
             sel: Sel::Len,
@@ -1871,6 +1994,8 @@ fn gen_c14(a: &Args, w: &mut dyn Write) {
             fscript: vec![Fl::Err(K::BrokenPipe)],
             sscript: vec![Fl::Err(K::NotConnected), Fl::Ok],
             api: 0,
+            parts: true,
+            rscript: vec![],
         },
         WConfig {
             sel: Sel::Bytes,
@@ -1879,9 +2004,11 @@ fn gen_c14(a: &Args, w: &mut dyn Write) {
             fscript: vec![Fl::Ok, Fl::Pending, Fl::Err(K::UnexpectedEof), Fl::Pending],
             sscript: vec![Fl::Pending],
             api: 1,
+            parts: false,
+            rscript: vec![],
         },
         // 8190 + LF = 8191 < HW: ready without I/O; one more LF = 8192 = HW: ready must flush
-        WConfig { sel: Sel::Lines, sizes: vec![8190, 0, 1], wscript: vec![Wr::Accept(8191), Wr::Accept(1), Wr::Pending], fscript: vec![Fl::Pending], sscript: vec![], api: 0 },
+        WConfig { sel: Sel::Lines, sizes: vec![8190, 0, 1], wscript: vec![Wr::Accept(8191), Wr::Accept(1), Wr::Pending], fscript: vec![Fl::Pending], sscript: vec![], api: 0, parts: false, rscript: vec![] },
         WConfig {
             sel: Sel::Bytes,
             sizes: vec![1023, 1, 1024, 1025, 8192],
@@ -1889,9 +2016,11 @@ fn gen_c14(a: &Args, w: &mut dyn Write) {
             fscript: vec![Fl::Ok, Fl::Pending],
             sscript: vec![],
             api: 2,
+            parts: false,
+            rscript: vec![],
         },
         // more than HW in the buffer, a transport that takes a little and then blocks: still back-pressure
-        WConfig { sel: Sel::Bytes, sizes: vec![9192, 3000], wscript: vec![Wr::Accept(100), Wr::Pending, Wr::Accept(900), Wr::Pending, Wr::Accept(10)], fscript: vec![Fl::Pending], sscript: vec![Fl::Ok], api: 0 },
+        WConfig { sel: Sel::Bytes, sizes: vec![9192, 3000], wscript: vec![Wr::Accept(100), Wr::Pending, Wr::Accept(900), Wr::Pending, Wr::Accept(10)], fscript: vec![Fl::Pending], sscript: vec![Fl::Ok], api: 0, parts: false, rscript: vec![] },
     ];
     // (A0) codec swaps between the sends (the buffer is carried over, the encoder changes): every
     // sequence over {send, ready, flush, close, swap, mapio} up to length 4
@@ -1929,14 +2058,16 @@ fn gen_c14(a: &Args, w: &mut dyn Write) {
         let cfg = random_wconfig(&mut rng);
         let big = cfg.sizes.iter().any(|n| *n > 2000);
         let n = if big { rng.range(7, 14) } else { rng.range(7, 40) };
+        let with_reads = !cfg.rscript.is_empty();
         let ops: Vec<u8> = (0..n)
-            .map(|_| match rng.below(21) {
+            .map(|_| match rng.below(if with_reads { 25 } else { 21 }) {
                 0..=7 => 0,
                 8..=12 => 1,
                 13..=16 => 2,
                 17 | 18 => 3,
                 19 => 4,
-                _ => 5,
+                20 => 5,
+                _ => 6,
             })
             .collect();
         emit_c14(w, &mut id, "rand", &cfg, &ops);
@@ -1967,34 +2098,39 @@ fn gen(a: &Args) {
     w.flush().unwrap();
 }
 
-fn parse_case(ws: &[&str]) -> Option<Sel> {
+fn parse_case(ws: &[&str]) -> Option<(Sel, Init)> {
     let mut sel = Sel::Lines;
+    let mut init = Init::New;
     for w in ws.iter().skip(2) {
         match *w {
             "codec=lines" => sel = Sel::Lines,
             "codec=bytes" => sel = Sel::Bytes,
             "codec=len" => sel = Sel::Len,
             x if x.starts_with("codec=") => return None,
+            "init=new" => init = Init::New,
+            "init=parts" => init = Init::Parts,
+            x if x.starts_with("init=rbuf:") => init = Init::Rbuf(unhex(&x[10..]).filter(|b| b.len() <= MAX_CHUNK)?),
+            x if x.starts_with("init=") => return None,
             _ => {}
         }
     }
-    Some(sel)
+    Some((sel, init))
 }
 
 fn run(a: &Args) {
     silence_panics();
     let mut rep = Report::new(&a.output);
-    let mut sess = Session::new(Sel::Lines);
+    let mut sess = Session::new(Sel::Lines, Init::New);
     for line in in_lines(&a.input) {
         let ws: Vec<&str> = line.split_whitespace().collect();
         let real: String = match ws.as_slice() {
             ["case", ..] => match parse_case(&ws) {
-                Some(sel) => {
-                    sess = Session::new(sel);
+                Some((sel, init)) => {
+                    sess = Session::new(sel, init);
                     "ok".into()
                 }
                 None => {
-                    sess = Session::new(Sel::Lines);
+                    sess = Session::new(Sel::Lines, Init::New);
                     "bad-op".into()
                 }
             },
